@@ -142,6 +142,18 @@ def st_case(draw):
                   [draw(st.sampled_from(nts))] + [draw(st.sampled_from(g["terms"]))]
             if alt not in g["prods"][a]:
                 g["prods"][a].insert(draw(st.integers(0, len(g["prods"][a]))), alt)
+    # guarded (right) recursion operator: X -> (solid, nullable..., X-or-other, ...) where 'solid' is a non-terminal that
+    # always consumes a token - NOT left-recursive, but the recursion search must notice that 'solid' is not nullable
+    if len(nts) >= 2 and draw(st.integers(0, 2)) == 0:
+        a = draw(st.sampled_from(nts))
+        solid = draw(st.sampled_from([b for b in nts if b != a]))
+        g["prods"][solid] = [[draw(st.sampled_from(g["terms"]))] + alt[1:] if alt else [draw(st.sampled_from(g["terms"]))]
+                             for alt in g["prods"][solid]]
+        nullables = [b for b in nts if [] in g["prods"][b] and b != solid]
+        mid = [draw(st.sampled_from(nullables)) for _ in range(draw(st.integers(0, 2)))] if nullables else []
+        alt = [solid] + mid + [draw(st.sampled_from(nts))] + ([draw(st.sampled_from(g["terms"]))] if draw(st.booleans()) else [])
+        if alt not in g["prods"][a]:
+            g["prods"][a].insert(draw(st.integers(0, len(g["prods"][a]))), alt)
     for a in nts:
         d = []
         for alt in g["prods"][a]:
